@@ -63,7 +63,8 @@ def run(module_path, cfg_path, *, workdir, workers=16, mode="check", depth=None,
     module_path = Path(module_path)
     workdir = Path(workdir)
     workdir.mkdir(parents=True, exist_ok=True)
-    meta = workdir / ("meta_" + module_path.stem + "_" + str(int(time.time() * 1000) % 10**9))
+    import uuid
+    meta = workdir / ("meta_" + module_path.stem + "_" + uuid.uuid4().hex[:10])
     cmd = _java_cmd(jvm_opts)
     if mode == "simulate":
         sim = "num=%d" % (num or 1000)
